@@ -226,18 +226,212 @@ func runCheck(o *checkOpts) (int, error) {
 				r.O.Res = SolveResult{Status: "unsat", Solver: "trivial"}
 				return
 			}
-			q := r.E.query(r.O, false)
-			r.O.Res = solve(work, r.O.Name, q, o.timeout, o.seed, "")
-			if r.O.Res.Status != r.O.Expect && r.O.Expect == "unsat" && r.O.Res.Status != "sat" {
-				// one retry with another seed
-				r.O.Res = solve(work, r.O.Name+".retry", q, o.timeout, o.seed+7, "")
-			}
+			decide(r, o, work)
 		}(&all[i])
 	}
 	wg.Wait()
 
 	rep := &Report{Prop: prop, Opts: o, L: L, All: all, EncErrs: encErrs, Encs: encs, Funcs: funcsUnder, T0: t0, Work: work}
 	return rep.finish()
+}
+
+const directBudget = 4 // seconds for the first, direct attempt
+
+// decide runs the proof strategy for one obligation:
+//   1. the query as it is (short budget);
+//   2. case split on the conditions that select between memory versions
+//      (append fits / not, branches that merge different memories);
+//   3. the conjuncts of the goal one by one (each again with 1 and 2);
+//   4. the query as it is with the full budget and another seed.
+// A counterexample (sat) at any stage ends the search.
+func decide(r *oblResult, o *checkOpts, work string) {
+	ob := r.O
+	q := r.E.query(ob, false)
+	if ob.Kind == "cover" {
+		// vacuity guards get a short budget: an undecided guard is reported, not fatal
+		ob.Res = solve(work, ob.Name, q, 5, o.seed, "")
+		return
+	}
+	t0 := time.Now()
+	budget := directBudget
+	if budget > o.timeout {
+		budget = o.timeout
+	}
+	res := solve(work, ob.Name, q, budget, o.seed, "")
+	if res.Status == "unsat" || res.Status == "sat" {
+		ob.Res = res
+		return
+	}
+	finish := func(res SolveResult, how string) {
+		res.Ms = time.Since(t0).Milliseconds()
+		if how != "" {
+			res.Solver += "+" + how
+		}
+		ob.Res = res
+	}
+	if res2, ok := solveCubes(r.E, ob, ob.Goal, o, work, ob.Name); ok {
+		finish(res2, "cases")
+		return
+	}
+	if parts := splitGoal(ob.Goal); len(parts) > 1 {
+		all := true
+		var last SolveResult
+		for i, g := range parts {
+			o2 := *ob
+			o2.Goal = g
+			name := fmt.Sprintf("%s.part%d", ob.Name, i)
+			pr := solve(work, name, r.E.query(&o2, false), budget, o.seed, "")
+			if pr.Status != "unsat" && pr.Status != "sat" {
+				if cr, ok := solveCubes(r.E, &o2, g, o, work, name); ok {
+					pr = cr
+				}
+			}
+			last = pr
+			if pr.Status == "sat" {
+				finish(pr, "split")
+				return
+			}
+			if pr.Status != "unsat" {
+				all = false
+				break
+			}
+		}
+		if all {
+			finish(last, "split")
+			return
+		}
+	}
+	res = solve(work, ob.Name+".retry", q, o.timeout, o.seed+7, "")
+	finish(res, "")
+}
+
+const maxCubeVars = 6
+
+// solveCubes splits the query on (at most maxCubeVars of) the recorded
+// memory-selecting conditions. ok is false when there is nothing to split on
+// or some case stayed undecided.
+func solveCubes(e *Enc, ob *Obligation, goal T, o *checkOpts, work, name string) (SolveResult, bool) {
+	var conds []T
+	for _, sc := range e.splitConds {
+		if sc.at <= ob.Upto {
+			conds = append(conds, sc.c)
+		}
+	}
+	if len(conds) == 0 {
+		return SolveResult{}, false
+	}
+	if len(conds) > maxCubeVars {
+		conds = conds[len(conds)-maxCubeVars:]
+	}
+	n := 1 << uint(len(conds))
+	results := make([]SolveResult, n)
+	var wg sync.WaitGroup
+	sem := make(chan struct{}, 4)
+	var mu sync.Mutex
+	stop := false
+	for m := 0; m < n; m++ {
+		wg.Add(1)
+		go func(m int) {
+			defer wg.Done()
+			sem <- struct{}{}
+			defer func() { <-sem }()
+			mu.Lock()
+			if stop {
+				mu.Unlock()
+				results[m] = SolveResult{Status: "skipped"}
+				return
+			}
+			mu.Unlock()
+			o2 := *ob
+			o2.Goal = goal
+			o2.Extra = append([]string{}, ob.Extra...)
+			for i, c := range conds {
+				if m&(1<<uint(i)) != 0 {
+					o2.Extra = append(o2.Extra, "(assert "+c.S+")")
+				} else {
+					o2.Extra = append(o2.Extra, "(assert (not "+c.S+"))")
+				}
+			}
+			res := solve(work, fmt.Sprintf("%s.case%d", name, m), e.query(&o2, false), o.timeout, o.seed, "")
+			res.Cube = o2.Extra
+			results[m] = res
+			if os.Getenv("LSVC_DEBUG") != "" {
+				fmt.Fprintf(os.Stderr, "case %s #%d: %s %s %dms\n", name, m, res.Status, res.Solver, res.Ms)
+			}
+			if res.Status != "unsat" {
+				mu.Lock()
+				stop = true
+				mu.Unlock()
+			}
+		}(m)
+	}
+	wg.Wait()
+	var total int64
+	var last SolveResult
+	for _, r := range results {
+		total += r.Ms
+		if r.Status == "sat" {
+			r.Ms = total
+			return r, true
+		}
+	}
+	for _, r := range results {
+		if r.Status != "unsat" {
+			return r, false
+		}
+		last = r
+	}
+	last.Ms = total
+	return last, true
+}
+
+// splitGoal breaks a goal into conjuncts: (and a b) and (=> p (and a b)).
+func splitGoal(g T) []T {
+	s := strings.TrimSpace(g.S)
+	if strings.HasPrefix(s, "(and ") {
+		var out []T
+		for _, p := range sexpArgs(s) {
+			out = append(out, splitGoal(T{p, SBool})...)
+		}
+		return out
+	}
+	if strings.HasPrefix(s, "(=> ") {
+		args := sexpArgs(s)
+		if len(args) == 2 {
+			sub := splitGoal(T{args[1], SBool})
+			if len(sub) > 1 {
+				var out []T
+				for _, c := range sub {
+					out = append(out, T{"(=> " + args[0] + " " + c.S + ")", SBool})
+				}
+				return out
+			}
+		}
+	}
+	return []T{g}
+}
+
+// sexpArgs returns the arguments of the s-expression "(op a b ...)".
+func sexpArgs(s string) []string {
+	s = strings.TrimSpace(s)
+	if len(s) < 2 || s[0] != '(' {
+		return nil
+	}
+	body := s[1 : len(s)-1]
+	i := skipSexp(body) // operator
+	var out []string
+	for i < len(body) {
+		for i < len(body) && body[i] == ' ' {
+			i++
+		}
+		if i >= len(body) {
+			break
+		}
+		n := skipSexp(body[i:])
+		out = append(out, strings.TrimSpace(body[i:i+n]))
+		i += n
+	}
+	return out
 }
 
 func cmdDump(args []string) int {
